@@ -22,7 +22,7 @@ RULE = ("For generated valid contents of composeinfo, images, rpms, modules, ext
         "scanner); (cross-process) batches of the generated (content, plan) pairs are rebuilt in child interpreters started "
         "with PYTHONHASHSEED in {0,1,2,3,2^31, ...} and the SHA-256 of every dump must agree with the parent. Caller-ordered "
         "lists (extra-file entries, a module's RPM list, additional_variants) keep their order. Non-trivial = the plan is not "
-        "the identity and the content has >= 2 unordered siblings somewhere; distinct = SHA-1 of content+plan.")
+        "the identity and the content has >= 2 unordered siblings somewhere; distinct = SHA-1 of content+plan. An object that was dumped, changed in place and dumped again must give the bytes of a fresh object with the same content; treeinfo dumps with every other main_variant happen between two dumps.")
 ASSUMPTIONS = ["a finite set of hash seeds is explored", "images in one cell have distinct paths (the sort key the library documents)"]
 FLOORS = {"distinct_nontrivial": 400, "hash-seeds": 100}
 
@@ -191,7 +191,7 @@ def inprocess_case(case):
         canonical = json.dumps(json.loads(first), indent=4, sort_keys=True, separators=(",", ": "))
         check(first == canonical, "not-canonical-json", lambda: "%s: text differs from sort_keys/indent=4 re-dump: %s" % (fmt, first_difference(first, canonical)))
     nt = siblings(fmt, desc) and any(case["plans"])
-    return {"nontrivial": nt, "labels": [fmt]}
+    return {"nontrivial": nt, "labels": [fmt] + (["two-spellings-of-one-checksum-path"] if fmt == "treeinfo" and "two-spellings-of-one-checksum-path" in tim.labels(desc) else [])}
 
 
 def first_difference(a, b):
